@@ -68,9 +68,9 @@ if CONC_READY:
         "evidence_file": "/verif/evidence/C19.json",
         "replay_cmd_template": "./check C19 --replay {path}",
         "engine": "E-conc",
-        "level_claimed": {"category": "exploration", "text": "Deterministic concurrency simulation: container, atomic and builtInFunctions are copied from the working tree and rewritten (yield before every statement, sync/sync-atomic replaced by yielding wrappers); a seeded scheduler decides which of 2-16 tasks runs at every yield. Histories of container/MutexMap and atomic operations are checked for linearizability with porcupine against sequential models; executions overlapping gas-schedule changes must be charged wholly by one schedule in force; the race detector runs under the same deterministic schedule (the hand-off is invisible to it), so a reported race replays; deadlock is detected.", "design_ref": "DESIGN.md §2.3, §5 C19"},
+        "level_claimed": {"category": "exploration", "text": "Deterministic concurrency simulation: container, atomic and builtInFunctions are copied from the working tree and rewritten (yield before every statement, sync/sync-atomic replaced by yielding wrappers); a seeded scheduler decides which of 2-16 tasks runs at every yield. Histories of container/MutexMap and atomic operations are checked for linearizability with porcupine against sequential models; executions overlapping gas-schedule changes must be charged wholly by one schedule in force; the race detector runs under the same deterministic schedule (the hand-off is invisible to it), so a reported race replays; deadlock is detected; every executing task, which works on accounts and tokens of its own, is compared call by call and account by account with its own plan run alone through the same function objects (isolation: refinement against the sequential execution), and operations that must be refused (destination not payable, frozen entry, paused token) must be refused under every interleaving.", "design_ref": "DESIGN.md §2.3, §5 C19"},
         "level_note": "Explores interleavings at statement granularity of the three rewritten packages (not inside the Go runtime or third-party code); sampling of schedules, not enumeration.",
-        "technique": "deterministic simulation: seeded statement-level scheduler over an AST-instrumented copy, porcupine linearizability checking, race detector under the deterministic schedule",
+        "technique": "deterministic simulation: seeded statement-level scheduler over an AST-instrumented copy, porcupine linearizability checking, race detector under the deterministic schedule, per-task refinement against the sequential execution of the same plan",
     })
 else:
     na.append({"property_id": "C19", "reason": "not claimed yet: the concurrency engine (E-conc, DESIGN.md §2.3) is under construction in this session; will be claimed when it runs"})
